@@ -29,8 +29,12 @@ def rand_case(rng, quick, i):
     shape = [rng.randint(2, 4), rng.randint(2, 4), rng.randint(2, 5 if not quick else 4)]
     bt, kvec = {}, [0.0, 0.0, 0.0]
     for a, ax in enumerate("xyz"):
-        kind = rng.choice(["pair", "pair", "periodic", "bloch"])
-        if kind == "pair":
+        kind = rng.choice(["pair", "pair", "periodic", "bloch", "mix"])
+        if kind == "mix":       # a wrapping face opposite a wall / open face on the same axis (the axis then wraps, the wall masks)
+            faces = [rng.choice(["periodic"]), rng.choice(["none", "pec", "pmc"])]
+            rng.shuffle(faces)
+            bt[f"min_{ax}"], bt[f"max_{ax}"] = faces
+        elif kind == "pair":
             bt[f"min_{ax}"] = rng.choice(["none", "pec", "pmc"])
             bt[f"max_{ax}"] = rng.choice(["none", "pec", "pmc"])
         else:
@@ -60,7 +64,14 @@ def gen_cases(ctx):
     for i, t in enumerate(["none", "pec", "pmc", "periodic"]):
         cases.append({"shape": [3, 2, 4], "bt": {"min_x": t, "max_x": t, "min_y": "periodic", "max_y": "periodic", "min_z": "pec", "max_z": "pmc"},
                       "ncomp": 1 + 2 * (i % 2), "seed": i, "steps": 3, "back": 0})
-    for i in range(n - 4):
+    # corpus: a periodic face opposite a wall, both orders and both wall kinds (seeded regression C01_1)
+    for i, (a_, b_) in enumerate([("periodic", "pec"), ("pmc", "periodic"), ("pec", "periodic"), ("periodic", "pmc")]):
+        cases.append({"shape": [3, 3, 3], "bt": {"min_x": a_, "max_x": b_, "min_y": b_, "max_y": a_, "min_z": "pmc", "max_z": "pec"},
+                      "ncomp": 3, "seed": 10 + i, "steps": 3, "back": 0, "sigma": "E" if i % 2 else None})
+    # known finding: a Bloch face (k != 0) opposite a wall on the same axis
+    cases.append({"shape": [3, 3, 4], "bt": {"min_x": "periodic", "max_x": "periodic", "min_y": "pec", "max_y": "pec", "min_z": "bloch", "max_z": "pec"},
+                  "ncomp": 3, "seed": 5, "steps": 3, "back": 0, "kvec": [0.0, 0.0, 2.5e6]})
+    for i in range(n - 9):
         cases.append(rand_case(ctx.rng, ctx.quick, i))
     return cases
 
@@ -106,6 +117,7 @@ def predicate(case, out):
     en = energies(case, out)
     ref = max(abs(en[0]), 1e-300)
     key = "bt=" + ",".join(f"{k}:{v}" for k, v in sorted(case["bt"].items())) + f";sig={case.get('sigma')};nu={bool(case.get('edges'))};nc={case['ncomp']}"
+    one_sided = any((case["bt"][f"min_{ax}"] == "bloch") != (case["bt"][f"max_{ax}"] == "bloch") and (case.get("kvec") or [0, 0, 0])[a] for a, ax in enumerate("xyz"))
     if case.get("sigma"):
         for a, b in zip(en, en[1:]):
             if b > a + 1e-11 * ref:
@@ -113,7 +125,7 @@ def predicate(case, out):
     else:
         dev = max(abs(e - en[0]) for e in en) / ref
         if dev > 1e-11:
-            return ("energy-drift:" + key, f"Yee energy not conserved: {en} (rel dev {dev:.3e})")
+            return ("one-sided-bloch-face" if one_sided else "energy-drift:" + key, f"Yee energy not conserved: {en} (rel dev {dev:.3e})")
     for name, ph in (out.get("phases") or {}).items():
         z = complex(float.fromhex(ph[0]), float.fromhex(ph[1]))
         if abs(abs(z) - 1) > 1e-12:
